@@ -46,7 +46,7 @@ func c16Cases(tier string) []c16Case {
 func init() {
 	register(&Prop{
 		ID: "C16", Level: "exploration",
-		Rule: "enumerated cases: every collection size n in 0..130 (quick) / 0..600 (thorough) plus {1023..1026, 2047..2050, 3071..3074, 4095..4098} x key shape {fixed-width decimal, variable width, binary} x store kind {memory-only, flushed+evicted+re-opened file}. Each case checks Len() and the multiset of keys delivered by VisitItemsAscendBlockEx under the block manglers {nil, identity, reverse, rotate-by-1, rotate-by-half, two seeded permutations, RandBm} in both value modes and by VisitItemsRandom (twice): every key exactly once. For n = 0 a nil or non-nil error with zero deliveries is accepted. Non-trivial = n >= 1; distinct = distinct (n, shape, store kind).",
+		Rule:        "enumerated cases: every collection size n in 0..130 (quick) / 0..600 (thorough) plus {1023..1026, 2047..2050, 3071..3074, 4095..4098} x key shape {fixed-width decimal, variable width, binary} x store kind {memory-only, flushed+evicted+re-opened file}. Each case checks Len() and the multiset of keys delivered by VisitItemsAscendBlockEx under the block manglers {nil, identity, reverse, rotate-by-1, rotate-by-half, two seeded permutations, RandBm} in both value modes and by VisitItemsRandom (twice): every key exactly once. For n = 0 a nil or non-nil error with zero deliveries is accepted. Non-trivial = n >= 1; distinct = distinct (n, shape, store kind).",
 		Assumptions: []string{"single goroutine; block manglers return a permutation of their input"},
 		Exhaustive:  func(string) bool { return true },
 		NumCases:    func(tier string) int { return len(c16Cases(tier)) },
